@@ -32,6 +32,10 @@ class Boom(Exception):
     """raised by a component during startup"""
 
 
+class Doom(BaseException):
+    """raised by a component during startup; not an Exception"""
+
+
 class Crash(Exception):
     """raised by a service task"""
 
@@ -51,7 +55,7 @@ def describe(e):
         return {"crash": e.args[0]}
     if isinstance(e, RunError):
         return {"runerror": e.args[0]}
-    if isinstance(e, Boom):
+    if isinstance(e, (Boom, Doom)):
         return {"boom": e.args[0]}
     if isinstance(e, SystemExit):
         return {"exit": e.code}
@@ -88,14 +92,20 @@ async def do_action(a, who):
     k = a[0]
     if k == "Reg":
         cid, pass_exc = a[1], a[2]
+        kids = a[3] if len(a) > 3 else []
         ctx = current_context() if who != "driver" else w.root_ctx
-        if pass_exc:
-            def cb(exc, cid=cid):
-                w.obs("Td", cid, "none" if exc is None else describe(exc))
-            ctx.add_teardown_callback(cb, pass_exception=True)
-        else:
-            ctx.add_teardown_callback(lambda cid=cid: w.obs("Td", cid, "noarg"))
-        w.obs("Reg", cid, bool(pass_exc))
+
+        def register(ctx, cid, pass_exc, kids):
+            def ran(arg):
+                w.obs("Td", cid, arg)
+                for kid, kpass in kids:          # registered while the teardown is running
+                    register(ctx, kid, kpass, [])
+            if pass_exc:
+                ctx.add_teardown_callback(lambda exc: ran("none" if exc is None else describe(exc)), pass_exception=True)
+            else:
+                ctx.add_teardown_callback(lambda: ran("noarg"))
+        register(ctx, cid, pass_exc, kids)
+        w.obs("Reg", cid, bool(pass_exc), kids)
     elif k == "Svc":
         sid = a[1]
         go = w.go[sid] = anyio.Event()
@@ -119,6 +129,16 @@ async def do_action(a, who):
     elif k == "Fail":
         w.obs("Fail", who)
         raise Boom(who)
+    elif k == "FailBase":
+        w.obs("Fail", who)
+        raise Doom(who)
+    elif k == "Linger":
+        # busy until told to stop; then its cleanup fails
+        try:
+            await anyio.sleep(a[1] if len(a) > 1 else 0.3)
+        except anyio.get_cancelled_exc_class():
+            w.obs("Fail", who)
+            raise Boom(who) from None
     elif k == "Hang":
         w.obs("Hang")
         await anyio.sleep(3600)
